@@ -51,6 +51,23 @@ Fixpoint pyfor2 (xs : list pyval) (st : list pyval) (body : list pyval -> pyval 
               end
   end.
 
+(* [while]: recursion on explicit fuel.  Out of fuel is [RetS PErr] - a poisoned value, never a normal answer -
+   so that a theorem about a translated [while] must be stated for fuel that suffices. *)
+Fixpoint pywhile2 (fuel : nat) (st : list pyval) (test : list pyval -> pyval) (body : list pyval -> ctl2) : ctl2 :=
+  match fuel with
+  | O => RetS PErr
+  | S f => match test st with
+           | PExc n => ExcS n st
+           | PErr => RetS PErr
+           | c => if py_truthy c
+                  then match body st with
+                       | NextS st' => pywhile2 f st' test body
+                       | r => r
+                       end
+                  else NextS st
+           end
+  end.
+
 (* bind with an explicit handler, function level / loop level *)
 Definition py_bindh (h : string -> pyval) (e : pyval) (k : pyval -> pyval) : pyval := p2_bind PErr h e k.
 Definition py_bindS (h : string -> ctl2) (e : pyval) (k : pyval -> ctl2) : ctl2 := p2_bind (RetS PErr) h e k.
